@@ -22,6 +22,32 @@ from checks.c01 import elems
 from checks.c04 import canonical
 
 
+HANDLER_KINDS = ["function", "function", "bound_method", "falsy_callable"]
+
+
+class _ErrorLog(list):
+    """An error log that is its own handler: empty (hence false) until the
+    first failure has been recorded."""
+
+    def __call__(self, exc):
+        self.append(type(exc).__name__)
+
+
+def make_handler(kind):
+    """(handler object, function returning the recorded class names)"""
+    if kind == "falsy_callable":
+        h = _ErrorLog()
+        return h, lambda: list(h)
+    names = []
+    if kind == "bound_method":
+        class Rec:
+            def handle(self, exc):
+                names.append(type(exc).__name__)
+        return Rec().handle, lambda: list(names)
+    return (lambda exc: names.append(type(exc).__name__)), \
+        (lambda: list(names))
+
+
 def count(nodes, key):
     return sum(1 for e in elems(nodes) if key in e["stmts"])
 
@@ -32,9 +58,13 @@ class OnError(Part):
     floors = {"handled": 0.15, "nested": 0.05}
 
     def strategy(self, tier):
-        return tstrat.templates(depth=3 if tier == "quick" else 4,
-                                onerror=6, fail_p=5, len_ok=False,
-                                max_elems=10, ns_elems=True)
+        from hypothesis import strategies as st
+        return st.tuples(
+            tstrat.templates(depth=3 if tier == "quick" else 4,
+                             onerror=6, fail_p=5, len_ok=False,
+                             max_elems=10, ns_elems=True),
+            st.sampled_from(HANDLER_KINDS)).map(
+                lambda t: dict(t[0], handler=t[1]))
 
     def source_obj(self, case):
         return tmodel.serialize(case["nodes"])
@@ -59,19 +89,17 @@ class OnError(Part):
     def chameleon(self, case, text):
         from chameleon import PageTemplate
         env = values.env(case["bindings"])
-        log, hlog = [], []
+        log = []
         rec, boom = exprs.make_callables(log)
         env["rec"], env["boom"] = rec, boom
-
-        def handler(exc):
-            hlog.append(type(exc).__name__)
+        handler, seen = make_handler(case.get("handler", "function"))
         o = run(PageTemplate, text, on_error_handler=handler)
         if not o.ok:
-            return ("compile-exc", o.exc_name), hlog, log
+            return ("compile-exc", o.exc_name), seen(), log
         o = run(o.value.render, **env)
         if not o.ok:
-            return ("exc", o.exc_name), hlog, log
-        return ("out", o.value), hlog, log
+            return ("exc", o.exc_name), seen(), log
+        return ("out", o.value), seen(), log
 
     def _info(self, case):
         src = self.source_obj(case)
@@ -240,6 +268,164 @@ class Indirect(Part):
         return None
 
 
+class Deferred(Part):
+    """Failures of every origin inside on-error elements of a template
+    compiled with strict=False: expressions that do not compile (deferred
+    to the moment they are reached), ordinary run-time failures, after an
+    inner handler has already recovered; the fallback reads error.type and
+    error.lineno / error.offset, which must be those of the failing
+    expression (the generator knows where it wrote it)."""
+    name = "deferred"
+    examples = {"quick": 400, "thorough": 10000}
+
+    INVALID = ["bad%d ///", "%d +", "x%d ==", "%d 7", "not %d not"]
+    RUNTIME = [("missing%d", "NameError"), ("%d/0", "ZeroDivisionError"),
+               ("[][%d]", "IndexError"), ("{}['k%d']", "KeyError")]
+
+    def strategy(self, tier):
+        from hypothesis import strategies as st
+        unit = st.fixed_dictionaries({
+            "pre": st.sampled_from(["", "text ", "${ok}", "inner", "inner2",
+                                    "<u>v</u>"]),
+            "kind": st.sampled_from(["invalid", "invalid", "runtime",
+                                     "none"]),
+            "shape": st.integers(0, 4),
+            "site": st.sampled_from(["interp", "content", "attr", "define",
+                                     "condition"]),
+            "gap": st.sampled_from(["", " ", "\n", "\n     ", "\n\n  "]),
+            "attrs": st.sampled_from(["", ' class="c"']),
+            "indent": st.sampled_from(["", "  ", "\t"]),
+        })
+        return st.fixed_dictionaries({
+            "units": st.lists(unit, min_size=1, max_size=4),
+            "strict": st.sampled_from([False, False, False, True]),
+            "handler": st.sampled_from(HANDLER_KINDS),
+        })
+
+    REPORT = ("string:${error.type.__name__} ${error.lineno}:"
+              "${error.offset}")
+
+    def build(self, case):
+        """(source, expected output, expected handler log, any invalid)"""
+        src, out, hlog = ["<div>"], ["<div>"], []
+        marks = []
+        invalid = False
+        for n, u in enumerate(case["units"]):
+            num = 70 + n * 3
+            src.append("\n" + u["indent"])
+            out.append("\n" + u["indent"])
+            src.append('<p%s tal:on-error="%s">' % (u["attrs"], self.REPORT))
+            body_out = []
+            pre = u["pre"]
+            if pre in ("inner", "inner2"):
+                src.append('<b tal:on-error="string:inner">${%d/0}</b>'
+                           % (num + 1))
+                body_out.append("<b>inner</b>")
+                hlog.append("ZeroDivisionError")
+                if pre == "inner2":
+                    src.append('<b tal:on-error="string:two" tal:content='
+                               '"missing%d" />' % (num + 2))
+                    body_out.append("<b>two</b>")
+                    hlog.append("NameError")
+            elif pre == "${ok}":
+                src.append(pre)
+                body_out.append("fine")
+            else:
+                src.append(pre)
+                body_out.append(pre)
+            src.append(u["gap"])
+            body_out.append(u["gap"])
+            if u["kind"] == "none":
+                src.append("end</p>")
+                out.append("<p%s>%send</p>" % (u["attrs"],
+                                               "".join(body_out)))
+                continue
+            if u["kind"] == "invalid":
+                shape = self.INVALID[u["shape"] % len(self.INVALID)]
+                text = shape % num
+                cls = "ExpressionError"
+                invalid = True
+            else:
+                shape, cls = self.RUNTIME[u["shape"] % len(self.RUNTIME)]
+                text = shape % num
+            site = u["site"]
+            if site == "interp":
+                src.append("${")
+                marks.append((len("".join(src)), n))
+                src.append(text + "}")
+            else:
+                head = {"content": '<i tal:content="',
+                        "attr": '<i title="${',
+                        "define": '<i tal:define="v ',
+                        "condition": '<i tal:condition="'}[site]
+                src.append(head)
+                marks.append((len("".join(src)), n))
+                src.append(text + ('}">c</i>' if site == "attr"
+                                   else '">c</i>'))
+            src.append("end</p>")
+            hlog.append(cls)
+            out.append("<p%s>%s " % (u["attrs"], cls))
+            out.append(("@", n))
+            out.append("</p>")
+        src.append("\n</div>")
+        out.append("\n</div>")
+        text = "".join(src)
+        pos = dict((n, off) for off, n in marks)
+        res = []
+        for piece in out:
+            if isinstance(piece, tuple):
+                off = pos[piece[1]]
+                before = text[:off]
+                res.append("%d:%d" % (before.count("\n") + 1,
+                                      off - before.rfind("\n") - 1))
+            else:
+                res.append(piece)
+        return text, "".join(res), hlog, invalid
+
+    def nontrivial(self, case):
+        return any(u["kind"] == "invalid" for u in case["units"]) and \
+            not case["strict"]
+
+    def labels(self, case):
+        for u in case["units"]:
+            yield u["kind"] + "_" + u["site"]
+            if u["pre"].startswith("inner") and u["kind"] != "none":
+                yield "after_inner_handler"
+        yield "handler_" + case["handler"]
+
+    def sample(self, case):
+        return {"source": self.build(case)[0], "strict": case["strict"]}
+
+    def oracle(self, case):
+        from chameleon import PageTemplate
+        from chameleon.exc import ExpressionError
+        text, want, want_h, invalid = self.build(case)
+        handler, seen = make_handler(case["handler"])
+        detail = {"source": text, "strict": case["strict"],
+                  "handler": case["handler"]}
+        o = run(PageTemplate, text, strict=case["strict"],
+                on_error_handler=handler)
+        if case["strict"] and invalid:
+            if o.ok or not isinstance(o.exc, ExpressionError):
+                return Mismatch("deferred:strict compilation accepted an "
+                                "invalid expression", detail)
+            return None
+        if not o.ok:
+            return Mismatch("deferred:compile raises " + o.exc_name,
+                            dict(detail, outcome=o.brief()))
+        o = run(o.value.render, ok="fine")
+        if not o.ok:
+            return Mismatch("deferred:propagates " + o.exc_name,
+                            dict(detail, outcome=o.brief()))
+        detail.update(got=o.value, expected=want, handler_calls=seen(),
+                      expected_handler_calls=want_h)
+        if o.value != want:
+            return Mismatch("deferred:output differs", detail)
+        if seen() != want_h:
+            return Mismatch("deferred:handler calls", detail)
+        return None
+
+
 CHECK = Check(
     "C13", "fault_enumeration",
     rule=("C01 templates with tal:on-error on random elements x planted "
@@ -248,7 +434,7 @@ CHECK = Check(
           "rarely, KeyboardInterrupt/SystemExit/RecursionError) x 9 fallback "
           "kinds, with a recording on_error_handler; non-trivial = the model "
           "handles at least one failure; distinct by sha1 of the case"),
-    parts=[OnError(), Indirect()],
+    parts=[OnError(), Indirect(), Deferred()],
     assumptions=[
         "fallback tags are emitted only when the element has no tal:omit-tag "
         "at all and is not in the tal namespace (characterisation)",
